@@ -191,7 +191,7 @@ def TxWf1 (pool : Nat) (U : List Nat) (tx : Tx) : Prop :=
   0 ≤ tx.gasPrice ∧ tx.sender ≠ pool ∧ tx.payer ≠ pool ∧ tx.sender ∈ U ∧
   (match tx.kind with
    | .transfer _ v => 0 ≤ v
-   | .register amt _ _ _ => 0 ≤ amt
+   | .register amt _ _ _ _ => 0 ≤ amt
    | _ => True)
 
 def TxWf (pool : Nat) (U : List Nat) (tx : Tx) : Prop :=
@@ -228,12 +228,12 @@ theorem doSetSigners_inv (pool : Nat) (U : List Nat) (s s' : St) (fr tg : Nat) (
   injection h with h; subst h
   refine Inv_modAcct _ _ _ _ _ hI ?_ ?_ <;> intro _ <;> rfl
 
-theorem doRegister_inv (c : Ctx) (U : List Nat) (hn : U.Nodup) (s s' : St) (fr : Nat) (amt : Int) (flag inc : Nat) (nd : Bool)
+theorem doRegister_inv (c : Ctx) (U : List Nat) (hn : U.Nodup) (s s' : St) (fr : Nat) (amt : Int) (flag inc : Nat) (nd : Bool) (px : TxProfile)
     (hI : Inv c.p.pool U s) (hf : fr ∈ U) (hfp : fr ≠ c.p.pool) (ha : 0 ≤ amt)
-    (h : doRegister c s fr amt flag inc nd = .ok s') : Inv c.p.pool U s' := by
+    (h : doRegister c s fr amt flag inc nd px = .ok s') : Inv c.p.pool U s' := by
   have hpf : c.p.pool ≠ fr := Ne.symm hfp
   unfold doRegister at h
-  simp only at h
+  simp only [depositAfterOverlay_true] at h
   split at h; · cases h
   split at h
   · -- first registration (also: again, from the blank-flag state)
@@ -304,9 +304,9 @@ theorem body_inv (c : Ctx) (U : List Nat) (hn : U.Nodup) (s s' : St) (tx : Tx) (
     · injection h with h; subst h
       exact Inv_transfer _ _ _ _ _ _ hI hsp hk (by omega)
   | vote cand => simp only [hkind] at h; exact doVote_inv c U s s' _ _ _ hI h
-  | register amt flag inc nd =>
+  | register amt flag inc nd px =>
     simp only [hkind] at h hk
-    exact doRegister_inv c U hn s s' _ _ _ _ _ hI hsU hsp hk h
+    exact doRegister_inv c U hn s s' _ _ _ _ _ _ hI hsU hsp hk h
   | setSigners tg l tok => simp only [hkind] at h; exact doSetSigners_inv _ U s s' _ _ _ _ hI h
   | box => simp [hkind] at h
   | other => simp [hkind] at h
